@@ -136,6 +136,33 @@ def check_filter_greedy(ctx, rule: str):
     tf = repo.find_function(f"{F_BF}::thresh_filter")
     ok = any(isinstance(r, ast.Return) and unparse(r.value) == "ranks.dropna(axis=0)" for r in walk_no_nested(tf.node))
     ctx.ob(rule, construct(tf, "thresh_filter drops the rows with an undefined measure"), ok, loc(tf))
+    # the table a filter returns holds the kept features only: the kept measurements are joined to
+    # the ranking with how='right' (quantitative_filter never prunes `ranks` itself), also when the
+    # join sits in a helper shared by the two filters
+    for f in (fq,):
+        joins = []
+        todo, seen = [f], set()
+        while todo:
+            g = todo.pop()
+            if g.key in seen:
+                continue
+            seen.add(g.key)
+            for c in walk_no_nested(g.node):
+                if not isinstance(c, ast.Call):
+                    continue
+                if call_name(c) == "join" and isinstance(c.func, ast.Attribute) and not isinstance(c.func.value, ast.Constant):
+                    joins.append((g, c))
+                elif isinstance(c.func, ast.Name) and len(seen) < 6:
+                    sym = repo.resolve_name(g.module, c.func.id)
+                    if isinstance(sym, FunctionInfo):
+                        todo.append(sym)
+        if not joins:
+            raise AnalysisError(f"{f.qualname}: the join of the kept measurements to the ranking was not found")
+        for g, c in joins:
+            how = kwarg(c, "how")
+            ok = how is not None and const_value(how) == "right"
+            ctx.ob(rule, construct(f, f"only kept features are returned: the kept measurements are joined with how='right'" + ("" if g is f else f" (in {g.qualname})")), ok, loc(g, c),
+                   "" if ok else f"`{unparse(c)[:80]}`: a left join keeps every row of the ranking, the dropped features are returned too")
     af = repo.find_function(f"{F_SEL}::apply_filters")
     loops = [n for n in walk_no_nested(af.node) if isinstance(n, ast.For)]
     ok = len(loops) == 1 and unparse(loops[0].iter) == "filters" and any(isinstance(s, ast.Assign) and unparse(s.targets[0]) == "filtered_associations" and "filtered_associations" in unparse(s.value) for s in loops[0].body)
